@@ -95,9 +95,14 @@ def get_delim(eng, symbolic, recs=None, no_delim_in_prefixes=True):
     return d
 
 
-def build(eng, recs, delim=":", **kw):
+def build(eng, recs, delim=":", records_as="list", **kw):
+    """records_as: the kind of Iterable[Record] handed to the constructor - a list, a tuple or a one-shot iterator."""
     api = eng.mods.api
     records = [api.Record(**r.kwargs()) for r in recs]
+    if records_as == "iter":
+        records = iter(records)
+    elif records_as == "tuple":
+        records = tuple(records)
     return api.Converter(records, delimiter=delim, **kw)
 
 
@@ -210,6 +215,8 @@ def fixture(eng, params, prefixes_without_delim=True, warm=None):
     last synonym of each kind, queried (`warm`, so that any state remembered from queries is in place), then completed
     with add_prefix(..., merge=True)."""
     recs = mk_recs(eng, params["shape"])
+    for r, pat in zip(recs, params.get("patterns") or []):
+        r.pattern = pat         # a concrete regular expression for the record's local identifiers (or None)
     assume_strict(eng, recs)
     delim = get_delim(eng, params.get("symdelim", False), recs, no_delim_in_prefixes=False)
     if params.get("built") == "merge":
@@ -231,7 +238,7 @@ def fixture(eng, params, prefixes_without_delim=True, warm=None):
         # read as "prefix ++ delimiter contains the delimiter only at its end" (otherwise the CURIE syntax itself is
         # ambiguous, e.g. prefix "-_" with delimiter "__"), which coincides for single-character delimiters.
         eng.assume(And([first_occurrence(p, delim) for p in all_p(recs)]))
-    c = build(eng, recs, delim)
+    c = build(eng, recs, delim, records_as=params.get("records_as", "list"))
     return recs, delim, c
 
 
